@@ -85,6 +85,16 @@ CHECKS = {
         note="Request sets of size 3-20 other than the listed ones are outside; identity obligations assume generic strain fractions "
              "(structural de-dup cut), the merge-tolerance obligations remove that assumption for small request sets.",
         design="3/C04"),
+    "C13": dict(
+        engine="symnum+z3",
+        technique="symbolic execution of the real phonon pipeline and static fit on re-presented symbolic data (q-point / mode "
+                  "permutations, symbolic weight scale, static rows/columns); z3 decides equality of output polynomials",
+        text="Bounded solver verdict: for nq=3 and the listed permutations every output polynomial of the re-presented run equals the "
+             "original's for all spectra/strains; the weight scale factor is a symbol; the static cubic fit (exact least-squares stub) is "
+             "invariant under row permutations that keep the reference row first and under column order/case/spelling.",
+        note="Outside: reordering the volume blocks of the phonon file (qha + scipy interpolators cannot be executed symbolically), "
+             "permutations moving static row 0 (needs the affine-invariance argument for the Eulerian strain), rounding.",
+        design="3/C13"),
 }
 
 NOT_APPLICABLE = {
